@@ -5,6 +5,7 @@ package main
 import (
 	"go/ast"
 	"go/printer"
+	"sort"
 	"strings"
 )
 
@@ -40,6 +41,81 @@ func c18CallArgs(fd *ast.FuncDecl, callee string) [][]string {
 		return true
 	})
 	return res
+}
+
+// c18PkgVarRefs returns "func:var" for every reference to a package-level
+// variable made by the functions reachable from the roots through calls to
+// functions or methods of the same package (resolved by name).
+func c18PkgVarRefs(files []*ast.File, roots []string) []string {
+	funcs := map[string][]*ast.FuncDecl{}
+	pkgVars := map[string]bool{}
+	top := map[*ast.ValueSpec]bool{}
+	for _, f := range files {
+		for _, d := range f.Decls {
+			switch x := d.(type) {
+			case *ast.FuncDecl:
+				funcs[x.Name.Name] = append(funcs[x.Name.Name], x)
+			case *ast.GenDecl:
+				if x.Tok.String() != "var" {
+					continue
+				}
+				for _, sp := range x.Specs {
+					vs := sp.(*ast.ValueSpec)
+					top[vs] = true
+					for _, n := range vs.Names {
+						if n.Name != "_" {
+							pkgVars[n.Name] = true
+						}
+					}
+				}
+			}
+		}
+	}
+	seen := map[*ast.FuncDecl]bool{}
+	var work []*ast.FuncDecl
+	for _, r := range roots {
+		if len(funcs[r]) == 0 {
+			fail("account.%s not found", r)
+			return nil
+		}
+		work = append(work, funcs[r]...)
+	}
+	var refs []string
+	for len(work) > 0 {
+		fd := work[0]
+		work = work[1:]
+		if seen[fd] || fd.Body == nil {
+			continue
+		}
+		seen[fd] = true
+		ast.Inspect(fd.Body, func(n ast.Node) bool {
+			switch x := n.(type) {
+			case *ast.CallExpr:
+				name := ""
+				switch f := x.Fun.(type) {
+				case *ast.Ident:
+					name = f.Name
+				case *ast.SelectorExpr:
+					name = f.Sel.Name // method of a same-package type, by name
+				}
+				work = append(work, funcs[name]...)
+			case *ast.Ident:
+				if !pkgVars[x.Name] {
+					return true
+				}
+				// resolved to a local declaration (parameter, := …)?
+				if x.Obj != nil {
+					if vs, ok := x.Obj.Decl.(*ast.ValueSpec); !ok || !top[vs] {
+						return true
+					}
+				}
+				refs = append(refs, fd.Name.Name+":"+x.Name)
+			}
+			return true
+		})
+	}
+	sort.Strings(refs)
+	return refs
 }
 
 // genC18 extracts the source shapes the C18 model mirrors: the hashed
@@ -100,6 +176,12 @@ func genC18() {
 		return true
 	})
 	l.p("def concatAndHashWrites : List String := %s", leanStrList(writes))
+	// the auth functions and everything they call inside package account
+	// reference no package-level variable (no shared mutable state: safe for
+	// concurrent handshakes)
+	l.p("/-- `func:var` for every reference to a package-level variable of package account in the functions reachable")
+	l.p("from CommitAccount / AuthChallenge / AuthHash -/")
+	l.p("def authPkgVarRefs : List String := %s", leanStrList(c18PkgVarRefs(acct, []string{"CommitAccount", "AuthChallenge", "AuthHash"})))
 	l.p("def concatAndHashIsSha256 : Bool := %s", c18Bool(strings.Contains(c18NodeString(cah.Body), "h := sha256.New()")))
 
 	// ---- auctioneer/client.go ----
